@@ -210,8 +210,12 @@ def run_scenario(cfg, ks_budget, rng):
             rest = list(cfg["script"][min(consumed, len(cfg["script"])):]) + TAIL
             out2, o3, ops3, _, _, _ = (None, None, [], None, None, None)
             if rec_err is None:
-                out2, o3, ops3, _, _, _ = run_search(cfg, d, rest)
-                final = lc.snapshot(o3, d)
+                try:
+                    out2, o3, ops3, _, _, _ = run_search(cfg, d, rest)
+                    final = lc.snapshot(o3, d)
+                except Exception as e:
+                    # the resumed search itself raised (e.g. KeyError for a queued trial whose file is gone): reported as resume-raises
+                    out2 = "error:%s: %s" % (type(e).__name__, str(e)[:120]); ops3 = []; final = None
             else:
                 final = None
             per_k.append(dict(k=k, crashed=out1, finals=finals, started=sorted(started), tuner_file=tuner_file, rec_flat=rec_flat, rec_snap=rec_snap,
